@@ -55,8 +55,9 @@ namespace nmtools::utl
         public:
         constexpr static_vector()
         {}
+        // NOTE: like resize, a size beyond the capacity is refused
         constexpr static_vector(size_type n)
-            : size_(n)
+            : size_(n <= Capacity ? n : 0)
         {}
 
         template <typename...Ts>
